@@ -3,6 +3,7 @@
   Imports the executable model only (core Lean, no Mathlib) so that it links as a `lean_exe`.
 -/
 import MF.Model.Lexer
+import MF.Model.File
 open MF MF.Lex
 
 def hx (b : Bytes) : String := if b.isEmpty then "-" else toHex b
@@ -39,6 +40,15 @@ def handle (line : String) : String :=
     match ofHex? (if h == "-" then "" else h) with
     | some buf => lexRun buf (mode == "n") (buf.length + 2) Lex.init #[]
     | none => "BADREQ"
+  | ["POS", h, a, b] =>
+    match ofHex? (if h == "-" then "" else h), a.toInt?, b.toInt? with
+    | some buf, some pos, some e =>
+      match File.position buf pos e with
+      | none => "CRASH"
+      | some p =>
+        let msg := B "m"
+        s!"{p.line} {p.column} {p.endLine} {p.endColumn} {hx p.source} {hx (File.errorString (B "f.sql") p msg)}"
+    | _, _, _ => "BADREQ"
   | _ => "BADREQ"
 
 partial def loop (hin : IO.FS.Stream) (hout : IO.FS.Stream) : IO Unit := do
